@@ -93,10 +93,18 @@ def oracle_bytes_unchanged(cases, impl, init_digest=None, mode=None):
     n = 0
     for c in cases:
         prev = None
+        pending = False      # the buffer was extended and no mutable view has adopted the growth yet
         for a in steps_of(impl, c.id):
             if a.get('r') == 'P':
                 break
-            if prev is not None and is_noop_step(c.kind, c.ops[a['i']], a.get('r')):
+            name = c.ops[a['i']].split(' ')[0]
+            if name == 'ext':
+                pending = True
+            opens_mut = c.kind == 'avl' and name in ('ins', 'rem', 'gmut', 'gmut0', 'openmut')
+            adopting = pending and opens_mut
+            if opens_mut:
+                pending = False
+            if prev is not None and not adopting and is_noop_step(c.kind, c.ops[a['i']], a.get('r')):
                 n += 1
                 if a.get('d') != prev:
                     out.append(Finding('oracle', c, a['i'], 'bytes-changed: op "%s" returned %s (refused/query) but the buffer changed' % (c.ops[a['i']], a.get('r')), mode=mode))
@@ -178,7 +186,7 @@ def oracle_doc(cases, impl, workdir, tag, want=('wf', 'cont'), mode=None):
                 bad = 'format: the independent reader cannot read the buffer after op "%s"' % c.ops[a['i']]
         elif 'wf' in want and d.get('wf') != 'T':
             bad = 'format: slot classification/structure ill-formed after op "%s" (hdr=%s free=%s never=%s)' % (c.ops[a['i']], d.get('doc'), d.get('free'), d.get('never'))
-        elif 'wf' in want and c.kind == 'avl' and d.get('bst') != 'T':
+        elif 'wf' in want and 'nobst' not in want and c.kind == 'avl' and d.get('bst') != 'T':
             bad = 'format: in-order keys not ascending after op "%s"' % c.ops[a['i']]
         elif 'cont' in want and c.kind != 'avl' and abs_contents(c.kind, a) is not None and d.get('cont') != abs_contents(c.kind, a):
             bad = 'format: decoded contents %s differ from what the API reports %s after op "%s"' % (d.get('cont'), abs_contents(c.kind, a), c.ops[a['i']])
@@ -340,7 +348,11 @@ def oracle_pstr(cases, impl, props):
         p = int(c.header['p']); size = int(c.header['size'])
         pmax = (1 << (8 * p)) - 1
         cur = None          # expected payload bytes when known
-        plen = None
+        plen = 0 if size >= p else None      # the buffer starts all zero: recorded length 0
+        content = bytearray(size)            # buffer contents when known
+        if 'init' in c.header:
+            ini = unhex(c.header['init']); content[:len(ini)] = ini[:size]
+            plen = None
         for a in steps_of(impl, c.id):
             op = c.ops[a['i']].split(' ')
             r = a.get('r', '')
@@ -348,8 +360,23 @@ def oracle_pstr(cases, impl, props):
             if '!INVALID' in r and 'C11' in props:
                 bad = 'utf8: op "%s" handed out a str that is not valid UTF-8: %s' % (op[0], r)
             if r == 'P':
+                # with the recorded length known to fit the area (a handle was created by new(), or the
+                # buffer is still all zero) no view, reload or copy may panic
+                if 'C13' in props and plen is not None and not c.tags.get('expect_panic') \
+                        and op[0] in ('ro', 'asstr', 'size', 'copy', 'upper'):
+                    out.append(Finding('oracle', c, a['i'], 'prefix: op "%s" panicked although the recorded length %d fits the %d payload bytes'
+                                       % (op[0], plen, size - p)))
                 break
-            if op[0] == 'new' and r.startswith('O') and 'C13' in props:
+            if op[0] == 'new' and content is not None and size >= p and (r == 'E' or r.startswith('O')):
+                # judged on the bytes the implementation itself reported before this call
+                shown = bytes(content[p:p + min(size - p, pmax)])
+                if r == 'E' and is_utf8(shown):
+                    bad = 'new() refused a buffer whose first %d payload bytes (all it can describe) are valid UTF-8: what lies behind them is trailing data' % len(shown)
+                elif r.startswith('O') and not is_utf8(shown) and 'C11' in props:
+                    bad = 'utf8: new() accepted a buffer whose first %d payload bytes are not valid UTF-8' % len(shown)
+            if bad:
+                pass
+            elif op[0] == 'new' and r.startswith('O') and 'C13' in props:
                 area = size - p
                 got = int(r[1:])
                 if area <= pmax and got != area:
@@ -405,6 +432,7 @@ def oracle_pstr(cases, impl, props):
             if bad:
                 out.append(Finding('oracle', c, a['i'], bad))
                 break
+            content = bytearray(unhex(a['b'])) if 'b' in a else None
     return out
 
 def oracle_podstr(cases, impl, props):
